@@ -327,6 +327,16 @@ pub fn run(toks: &[&str]) -> String {
                 writer.tx.send(Cmd::Restart).unwrap();
                 writer.wait();
             }
+            "J" => {
+                let v: u16 = p(toks[i + 1]);
+                i += 2;
+                if writer.st == St::Parked {
+                    out.push("K".into());
+                    continue;
+                }
+                let map = RawMap::open(&path, 72);
+                map.set_u16(OFF_GENERATION, v);
+            }
             "N" => {
                 i += 1;
                 let (ctx, rrx) = channel();
